@@ -28,7 +28,9 @@ RULE = ("exhaustive: every DAG on <=4 (quick) / <=5 (thorough) labelled nodes as
         "inexact), variants orig/stable/parallel, return types skeleton/pdag/cpdag/dag, max_cond_vars = n, = max degree, "
         "too small and 0; random ground-truth DAGs on 6-8 nodes (CPDAG checked against the specification's enumeration "
         "whenever the truth has <= 11 edges), dense 6-7 node truths, relabelled 6-node witnesses of the repaired rule-4 "
-        "defect, 9-10 node truths; PC.skeleton_to_pdag on random skeletons with random separating sets; PDAG.to_dag on "
+        "defect, 9-10 node truths, 5-node truths in which the orientation rules feed each other (one per equivalence "
+        "class: rule-J-then-rule-K chains, truths that need a further sweep after rule K, three sweeps; under the "
+        "identity orders and relabelled; the R3-then-R1 motif is also in the corpus); PC.skeleton_to_pdag on random skeletons with random separating sets; PDAG.to_dag on "
         "CPDAGs and on arbitrary PDAGs with extendability decided by brute force.  Every PC output is compared with the "
         "model (same orders) and with the specification's CPDAG / class membership / consistent-extension checker.  "
         "Generalisation classes: "
@@ -204,7 +206,7 @@ def cases(tier, seed):
             out.append({"kind": "rand", "n": 6, "edges": [[perm[u], perm[v]] for u, v in w],
                         "oseed": rng.randint(0, 10**9), "njobs": 1, "src": "rule4-witness"})
     # dense-ish 6-7 node truths with an enumerable class: the region where that rule matters
-    nden = 180 if tier == "quick" else 3000
+    nden = 150 if tier == "quick" else 3000
     for i in range(nden):
         n = rng.choice([6, 6, 7])
         while True:
@@ -243,7 +245,7 @@ def cases(tier, seed):
             if len(edges) >= 2:
                 break
         out.append({"kind": "indsession", "n": n, "edges": edges, "oseed": rng.randint(0, 10**9)})
-    ns2p = 1500 if tier == "quick" else 12000
+    ns2p = 1200 if tier == "quick" else 12000
     for i in range(ns2p):
         out.append({"kind": "s2p", "n": rng.randint(3, 7), "oseed": rng.randint(0, 10**9)})
     ntd = 400 if tier == "quick" else 6000
@@ -589,7 +591,7 @@ def run_truth(case, drv):
     est = PC(data=df)
     if [idx[v] for v in est.variables] != vars_:
         return bad("impl!=spec:variables-order", {"impl": [idx[v] for v in est.variables], "columns": vars_})
-    maxcs = [n] if (light or case["kind"] == "rand") else sorted({n, md, max(md - 1, 0), 0}, reverse=True)
+    maxcs = [n] if (light or case["kind"] == "rand" or str(case.get("src", "")).startswith("motif5")) else sorted({n, md, max(md - 1, 0), 0}, reverse=True)
     for maxc in maxcs:
         exact = maxc >= md
         sp_ = spec
